@@ -655,6 +655,32 @@ def one_prior(ctx, d, units=None, seeds=None, cfg=None, label="gen", mp_queue=No
                                  f"{KINDS[k]}Prior.random({lo_u}, {hi_u}) returned {v!r}, outside the quantiles of "
                                  "the requested unit interval", rcase)
 
+    # ---- unit carriers: a unit handed over as a numpy scalar of another width, or inside an ndarray
+    # (single-precision unit cubes of samplers), is the same number and must map to the same quantile
+    import numpy as np
+    for q in (0.125, 0.25, 0.375, 0.625, 0.8125):
+        base = call(p.value_for, q, ignore_prior_limits=True)
+        if not isinstance(base, float) or base != base or math.isinf(base):
+            continue
+        scale = (abs(base) + (d.get("sigma", 0.0) if k in "GN" else 0.0) + (abs(U - L) if k == "U" else 0.0)) + 1e-300
+        # scipy's erfinv answers in the carrier's own precision
+        for cname, carrier, rel in (("float32", np.float32(q), 1e-5), ("float16", np.float16(q), 5e-3),
+                                    ("float64", np.float64(q), 1e-9), ("array64", np.array([q, q]), 1e-9),
+                                    ("array32", np.array([q], dtype=np.float32), 1e-5)):
+            tol = rel * scale
+            try:
+                got = p.value_for(carrier, ignore_prior_limits=True)
+                got = float(np.asarray(got, dtype=float).ravel()[0])
+            except Exception as e:  # noqa
+                ctx.hit("carrier-rejected:" + cname + ":" + type(e).__name__)
+                continue
+            ctx.hit("carrier:" + cname)
+            if not abs(got - base) <= tol:
+                ctx.fail("C02-unit-carrier",
+                         f"{KINDS[k]}Prior.value_for({cname}({q})) = {got!r} but value_for({q}) = {base!r}: the same "
+                         "unit value maps to a different physical value when carried by " + cname,
+                         {"prior": canon_prior(d), "units": [num(q)], "carrier": cname}, {"got": num(got), "want": num(base)})
+
     case0["seeds"] = [list(s) for s in sub]
     ctx.case(case0, nontrivial=n_values >= 3,
              sample={"prior": canon_prior(d), "units": [num(u) for u in units[:6]],
